@@ -854,6 +854,54 @@ pub fn gen_late(prop: &str, seed: u64) -> Plan {
     Plan { prop: prop.into(), family: "L-late".into(), seed, cfg, sim, clients: vec![ops], chaos: vec![], finale: Finale::None, universe, tags: vec!["under_capacity".into(), "settle_ttl".into(), "vstall".into(), "late_arrival".into()] }
 }
 
+
+/// TTLs beyond anything a deadline can represent (C03/C10/C20): `Duration::MAX` - which is what
+/// `get_ttl` reports for an entry without expiry, so it comes back when a caller copies an entry
+/// "with the same TTL" - and a few other values whose deadline overflows seconds-since-epoch.
+/// Only the engine rules (nothing panics, nothing blocks, no worker dies) and a small
+/// dedicated oracle (the entry is served and reports a TTL) judge these plans.
+pub fn gen_huge_ttl(prop: &str, seed: u64) -> Plan {
+    let mut rng = Rng::new(seed ^ 0x4a6e);
+    let flavor = pick_flavor_l(&mut rng);
+    let cfg0 = roomy_cfg(&mut rng, flavor);
+    let mut cfg = cfg0;
+    let sim = sim_plan(&mut rng, false);
+    let universe: Vec<u64> = vec![rng.range(1, 20), 300 + rng.below(20), rng.range(1000, 9000)];
+    let huge = |rng: &mut Rng| u64::MAX - rng.below(4);
+    let mut ops: Vec<Op> = Vec::new();
+    let mut writes = 0;
+    let steps = rng.range(2, 7);
+    for _ in 0..steps {
+        let k = *rng.pick(&universe);
+        match rng.below(10) {
+            0..=4 => {
+                let t = huge(&mut rng);
+                ops.push(Op::Insert { k, cost: rng.range(1, 4) as i64, ttl_ns: t, size: 1 });
+            }
+            5 => ops.push(Op::Insert { k, cost: 1, ttl_ns: 0, size: 2 }),
+            6 => ops.push(Op::Insert { k, cost: 1, ttl_ns: rng.range(200, 3000) * MS, size: 3 }),
+            7 => ops.push(Op::Remove { k }),
+            _ => ops.push(Op::Sleep { ns: rng.range(500, 4000) * MS }),
+        }
+        writes += 1;
+        ops.push(Op::Barrier);
+        ops.push(Op::Get { k, hold: 0 });
+        ops.push(Op::GetTtl { k });
+        if rng.chance(1, 3) {
+            ops.push(Op::Wait);
+        }
+    }
+    ops.push(Op::Sleep { ns: rng.range(1000, 5000) * MS });
+    ops.push(Op::Barrier);
+    for k in &universe {
+        ops.push(Op::Get { k: *k, hold: 0 });
+        ops.push(Op::GetTtl { k: *k });
+    }
+    ops.push(Op::Wait);
+    cfg.buffer_size = cfg.buffer_size.max(writes + 8);
+    Plan { prop: prop.into(), family: "L-huge-ttl".into(), seed, cfg, sim, clients: vec![ops], chaos: vec![], finale: if rng.chance(1, 2) { Finale::Close } else { Finale::None }, universe, tags: vec!["lockstep".into(), "under_capacity".into(), "huge_ttl".into(), "final_probe".into()] }
+}
+
 /// Scale family: one client inserts thousands of distinct keys (most with the same TTL), lets the
 /// TTLs pass and the cleanup run, then inspects the quiescent state.  Constants hidden in the
 /// implementation (per-tick limits, buffer sizes, shard counts) only show at this size.
@@ -989,6 +1037,7 @@ fn gen_plan_inner(prop: &str, seed: u64, variant: u64) -> Plan {
     let over = std::env::var("DST_GEN").ok();
     let prop = over.as_deref().unwrap_or(prop);
     match prop {
+        "C03" | "C10" | "C20" if variant % 40 == 11 => gen_huge_ttl(prop, seed),
         "C04" | "C05" | "C06" | "C01" | "C17" | "C07" | "C08" if variant % 193 == 7 => gen_bulk(prop, seed),
         "C03" if variant % 4 == 2 => gen_p_family(prop, seed, &PProfile { ttl_pct: 70, lookup_pct: 45, over_capacity_pct: 30, remove_pct: 8, ..PProfile::default() }),
         "C04" if variant % 4 == 2 => gen_p_family(prop, seed, &PProfile { over_capacity_pct: 0, collide_pct: 0, ttl_pct: 30, remove_pct: 10, if_present_pct: 5, wait_pct: 5, ..PProfile::default() }),
